@@ -15,11 +15,20 @@
    - OER: refuted (SET_OF_encode_oer writes the members in memory order);
    - the strip loop maps all contents octets denoting one integer to one octet string;
    - compare_struct on INTEGER_t (coq/Rt/CanonicalCompare.v) is the order of the values.
-   DEFAULT materialisation, BIT STRING unused bits, wide INTEGER_t in PER/OER/XER and
+   - canonical order against length fragmentation (coq/Rt/CanonicalFrag.v): the UPER of a
+     SET OF is the fragments of the sorted WHOLE list (not sorted fragments); that is
+     permutation-invariant for any fragment unit and any length; sorting inside the
+     fragment loop agrees up to K members and is refuted beyond.
+   - DEFAULT components of an extensible SEQUENCE, root and extension additions, for INTEGER /
+     ENUMERATED / BOOLEAN / NULL defaults (coq/Rt/CanonicalDefault.v over coq/Rt/Ext.v): the
+     encoders that ask default_value_cmp at every place are independent of explicit-vs-absent;
+     those that ask at some places only are refuted.
+   DEFAULT of other types, BIT STRING unused bits, wide INTEGER_t in PER/OER/XER and
    CANONICAL-XER are outside the modelled algebra: tie only. *)
 From Coq Require Import ZArith List Bool Permutation Sorted.
 From A1 Require Import Base.Bytes Leaf.IntegerConv Rt.Types Rt.Comb Rt.Der Rt.Uper Rt.Oer
-  Rt.Canonical Rt.CanonicalProofs Rt.CanonicalCompare Rt.CanonicalCompareProofs.
+  Rt.Canonical Rt.CanonicalProofs Rt.CanonicalCompare Rt.CanonicalCompareProofs
+  Rt.CanonicalFrag Rt.CanonicalFragProofs Rt.Ext Rt.CanonicalDefault Rt.CanonicalDefaultProofs.
 Import ListNotations.
 Local Open Scope Z_scope.
 
@@ -122,3 +131,125 @@ Theorem C06_integer_compare_representation_independent : forall a1 a2 b1 b2,
   int_compare a1 b1 = int_compare a2 b2.
 Proof. exact int_compare_same_value. Qed.
 Print Assumptions C06_integer_compare_representation_independent.
+
+(* Canonical order against length fragmentation (X.691 11.9 / 22.1; seeded change C06-4).
+   [chunks K] is the split made by the loop around uper_put_length (fragment unit K,
+   16384 in X.691 and in the C), [render K] writes every fragment under the length
+   determinant its own size decides, [frag_whole K] fragments the sorted list,
+   [frag_each K] sorts each fragment of the list as it is in memory. *)
+Theorem C06_counted_is_fragments_in_order : forall items,
+  counted items = render 16384 (chunks 16384 (S (length items)) items)
+  /\ concat (chunks 16384 (S (length items)) items) = items.
+Proof. exact counted_fragments. Qed.
+Print Assumptions C06_counted_is_fragments_in_order.
+
+Theorem C06_fragment_loop_is_render_of_chunks : forall K, 0 < K -> forall fuel items,
+  put_counted_g K fuel items = render K (chunks K fuel items).
+Proof. exact put_counted_g_render. Qed.
+Print Assumptions C06_fragment_loop_is_render_of_chunks.
+
+Theorem C06_fragment_loop_16K_is_model : forall fuel items,
+  put_counted_g 16384 fuel items = put_counted fuel items.
+Proof. exact put_counted_g_16K. Qed.
+Print Assumptions C06_fragment_loop_16K_is_model.
+
+Theorem C06_uper_setof_sorts_whole_list : forall std tg s e vs es,
+  option_all (map (uper std e) vs) = Some es ->
+  uper std (TSetOf tg s e) (VList vs) = sized s (sort_bit_encodings es)
+  /\ Permutation (sort_bit_encodings es) es
+  /\ StronglySorted (fun a b => key_leb a b = true) (sort_bit_encodings es).
+Proof. exact uper_setof_sorts_whole_list. Qed.
+Print Assumptions C06_uper_setof_sorts_whole_list.
+
+Theorem C06_uper_setof_fragments_of_sorted : forall std tg e vs es,
+  option_all (map (uper std e) vs) = Some es ->
+  uper std (TSetOf tg (SCon 0 None false) e) (VList vs) = Some (frag_whole 16384 es)
+  /\ concat (chunks 16384 (S (length es)) (sort_bit_encodings es)) = sort_bit_encodings es.
+Proof. exact uper_setof_fragments_of_sorted. Qed.
+Print Assumptions C06_uper_setof_fragments_of_sorted.
+
+Theorem C06_fragments_of_sorted_perm_invariant : forall K l1 l2,
+  (forall x y, In x l1 -> In y l1 -> pad_key x = pad_key y -> x = y) ->
+  Permutation l1 l2 -> frag_whole K l1 = frag_whole K l2.
+Proof. exact frag_whole_perm. Qed.
+Print Assumptions C06_fragments_of_sorted_perm_invariant.
+
+Theorem C06_per_fragment_sort_agrees_up_to_one_unit : forall K l,
+  0 < K -> zlen l <= K -> frag_each K l = frag_whole K l.
+Proof. exact frag_each_small. Qed.
+Print Assumptions C06_per_fragment_sort_agrees_up_to_one_unit.
+
+Theorem C06_per_fragment_sort_perm_refuted :
+  exists K l1 l2, 0 < K /\ Permutation l1 l2
+    /\ (forall x y, In x l1 -> In y l1 -> pad_key x = pad_key y -> x = y)
+    /\ frag_whole K l1 = frag_whole K l2
+    /\ frag_each K l1 <> frag_each K l2.
+Proof. exact frag_each_perm_refuted. Qed.
+Print Assumptions C06_per_fragment_sort_perm_refuted.
+
+(* DEFAULT components: stored explicitly or left absent (coq/Rt/CanonicalDefault.v).
+   [dflt_rel d v1 v2]: the two stored component values are equal, or both are at the
+   DEFAULT d (absent, or stored and equal to it); dr / da = DEFAULTs of the root members
+   and of the extension additions.  Seeded changes C06-3 and C06-5 are
+   [dfl_oer_stored_bit]; the repaired finding C06-uper-extension-default is
+   [dfl_uper_root_only]. *)
+Theorem C06_default_der_representation_independent : forall dr da t rvs1 rvs2 avs1 avs2,
+  Forall3 dflt_rel dr rvs1 rvs2 -> Forall3 dflt_rel da avs1 avs2 ->
+  dfl_der dr da t (EVSeq rvs1 avs1) = dfl_der dr da t (EVSeq rvs2 avs2).
+Proof. exact dfl_der_indep. Qed.
+Print Assumptions C06_default_der_representation_independent.
+
+Theorem C06_default_uper_representation_independent : forall dr da t rvs1 rvs2 avs1 avs2,
+  Forall3 dflt_rel dr rvs1 rvs2 -> Forall3 dflt_rel da avs1 avs2 -> forall std,
+  dfl_uper std dr da t (EVSeq rvs1 avs1) = dfl_uper std dr da t (EVSeq rvs2 avs2).
+Proof. exact dfl_uper_indep. Qed.
+Print Assumptions C06_default_uper_representation_independent.
+
+Theorem C06_default_oer_representation_independent : forall dr da t rvs1 rvs2 avs1 avs2,
+  Forall3 dflt_rel dr rvs1 rvs2 -> Forall3 dflt_rel da avs1 avs2 ->
+  dfl_oer dr da t (EVSeq rvs1 avs1) = dfl_oer dr da t (EVSeq rvs2 avs2).
+Proof. exact dfl_oer_indep. Qed.
+Print Assumptions C06_default_oer_representation_independent.
+
+Theorem C06_default_never_encoded : forall dv v x,
+  elide1 (Some dv) v = VSome x -> leaf_eqb x dv = false.
+Proof. exact elide1_not_default. Qed.
+Print Assumptions C06_default_never_encoded.
+
+Theorem C06_default_elision_idempotent : forall ds vs, elide ds (elide ds vs) = elide ds vs.
+Proof. exact elide_idem. Qed.
+Print Assumptions C06_default_elision_idempotent.
+
+Theorem C06_default_oer_stored_extension_bit_partial : forall dr da t rvs avs,
+  elide da avs = avs ->
+  dfl_oer_stored_bit dr da t (EVSeq rvs avs) = dfl_oer dr da t (EVSeq rvs avs).
+Proof. exact dfl_oer_stored_bit_agrees. Qed.
+Print Assumptions C06_default_oer_stored_extension_bit_partial.
+
+Theorem C06_default_oer_stored_extension_bit_refuted :
+  exists dr da t rvs avs1 avs2, Forall3 dflt_rel da avs1 avs2
+    /\ dfl_oer dr da t (EVSeq rvs avs1) = dfl_oer dr da t (EVSeq rvs avs2)
+    /\ dfl_oer_stored_bit dr da t (EVSeq rvs avs1) = Some [0; 1]
+    /\ dfl_oer_stored_bit dr da t (EVSeq rvs avs2) = Some [128; 1; 2; 7; 0].
+Proof. exact dfl_oer_stored_bit_refuted. Qed.
+Print Assumptions C06_default_oer_stored_extension_bit_refuted.
+
+Theorem C06_default_uper_count_only_partial : forall std dr da t rvs avs,
+  elide da avs = avs ->
+  dfl_uper_count_only std dr da t (EVSeq rvs avs) = dfl_uper std dr da t (EVSeq rvs avs).
+Proof. exact dfl_uper_count_only_agrees. Qed.
+Print Assumptions C06_default_uper_count_only_partial.
+
+Theorem C06_default_uper_count_only_refuted :
+  exists dr da t rvs avs1 avs2, Forall3 dflt_rel da avs1 avs2
+    /\ dfl_uper false dr da t (EVSeq rvs avs1) = dfl_uper false dr da t (EVSeq rvs avs2)
+    /\ dfl_uper_count_only false dr da t (EVSeq rvs avs1) <> dfl_uper_count_only false dr da t (EVSeq rvs avs2).
+Proof. exact dfl_uper_count_only_refuted. Qed.
+Print Assumptions C06_default_uper_count_only_refuted.
+
+Theorem C06_default_uper_root_only_refuted :
+  exists dr da t rvs avs1 avs2, Forall3 dflt_rel da avs1 avs2
+    /\ dfl_uper false dr da t (EVSeq rvs avs1) = dfl_uper false dr da t (EVSeq rvs avs2)
+    /\ dfl_uper_root_only false dr da t (EVSeq rvs avs1) <> dfl_uper_root_only false dr da t (EVSeq rvs avs2).
+Proof. exact dfl_uper_root_only_refuted. Qed.
+Print Assumptions C06_default_uper_root_only_refuted.
